@@ -1,1 +1,60 @@
-fn main(){}
+//! C13 worker: links vaporetto with exactly the cargo features it was built with, reads
+//! (model, texts) cases from a file and prints scores / boundaries / tags per text.
+//!
+//! input lines:  "M <hex model bytes>"  then  "T <text>" lines for that model
+//! output lines: "M" | "E <predictor error>" | "P <panic>" ; per text "S <scores>|<labels>|<n_tags>|<tags>"
+
+use std::io::{BufRead, BufWriter, Write};
+use vaporetto::{Model, Predictor, Sentence};
+
+fn unhex(s: &str) -> Vec<u8> {
+    (0..s.len() / 2).map(|i| u8::from_str_radix(&s[2 * i..2 * i + 2], 16).unwrap()).collect()
+}
+
+fn main() {
+    let args: Vec<String> = std::env::args().collect();
+    let inp = std::io::BufReader::new(std::fs::File::open(&args[1]).expect("input"));
+    let mut out = BufWriter::new(std::fs::File::create(&args[2]).expect("output"));
+    std::panic::set_hook(Box::new(|_| {}));
+    let with_tags = cfg!(feature = "tag-prediction");
+    let mut pred: Option<Predictor> = None;
+    for line in inp.lines() {
+        let line = line.unwrap();
+        if let Some(h) = line.strip_prefix("M ") {
+            let bytes = unhex(h);
+            let r = std::panic::catch_unwind(|| {
+                let (m, _) = Model::read_slice(&bytes).map_err(|e| format!("{e}"))?;
+                Predictor::new(m, with_tags).map_err(|e| format!("{e}"))
+            });
+            pred = None;
+            match r {
+                Ok(Ok(p)) => {
+                    pred = Some(p);
+                    writeln!(out, "M").unwrap();
+                }
+                Ok(Err(e)) => writeln!(out, "E {e}").unwrap(),
+                Err(_) => writeln!(out, "P Predictor::new panicked").unwrap(),
+            }
+        } else if let Some(t) = line.strip_prefix("T ") {
+            let Some(p) = pred.as_ref() else {
+                writeln!(out, "S -").unwrap();
+                continue;
+            };
+            let r = std::panic::catch_unwind(std::panic::AssertUnwindSafe(|| {
+                let mut s = Sentence::from_raw(t.to_string()).unwrap();
+                p.predict(&mut s);
+                #[cfg(feature = "tag-prediction")]
+                s.fill_tags();
+                let scores: Vec<String> = s.boundary_scores().iter().map(|x| x.to_string()).collect();
+                let labels: String = s.boundaries().iter().map(|&b| char::from(b'0' + b as u8)).collect();
+                let tags: Vec<String> = s.tags().iter().map(|t| t.as_ref().map_or("-".to_string(), |t| t.to_string())).collect();
+                format!("S {}|{}|{}|{}", scores.join(","), labels, s.n_tags(), tags.join(","))
+            }));
+            match r {
+                Ok(l) => writeln!(out, "{l}").unwrap(),
+                Err(_) => writeln!(out, "S panic").unwrap(),
+            }
+        }
+    }
+    out.flush().unwrap();
+}
